@@ -531,10 +531,77 @@ pub fn program(u: &Universe) -> String {
             dt_static = dt_static
         );
     }
+    s.push_str(&seq_section(u, &g));
     s.push_str("pub fn subjects() -> Vec<Box<dyn voracles::DynSubject>> {\n    vec![\n");
     for j in 0..u.subjects.len() {
         let _ = writeln!(s, "        voracles::wrap::<Subj{}>(),", j);
     }
     s.push_str("    ]\n}\n");
+    s
+}
+
+/// C16 / C13 machinery: for every subject of the form `Vec<E>`, monomorphic functions serializing the
+/// same items as vector, slice reference, exact-size-iterator wrapper, and nested in generic structs.
+fn seq_section(u: &Universe, g: &Gen) -> String {
+    let mut s = String::new();
+    s.push_str("#[derive(epserde::Epserde, Clone, Debug)]\npub struct SeqW1<A> { pub pre: u8, pub a: A, pub post: u16 }\n");
+    s.push_str("#[derive(epserde::Epserde, Clone, Debug)]\npub struct SeqW2<A, B> { pub a: A, pub mid: String, pub b: B }\n\n");
+    let mut entries = String::new();
+    for (j, t) in u.subjects.iter().enumerate() {
+        let Ty::Vec(e) = t else { continue };
+        let k = g.k(t);
+        let et = g.r(e);
+        let zero = u.is_zero(e);
+        let iter_stream = |src: &str| format!("{{ let it = epserde::impls::iter::SerIter::from({}.iter()); ser(&it)? }}", src);
+        let _ = writeln!(s, "pub fn seq_streams_{j}(v: &Val) -> Result<voracles::seq::SeqStreams, String> {{");
+        s.push_str("    use epserde::ser::Serialize;\n    fn ser<T: Serialize>(x: &T) -> Result<Vec<u8>, String> { let mut o = Vec::new(); x.serialize(&mut o).map_err(|e| format!(\"{:?}\", e))?; Ok(o) }\n");
+        let _ = writeln!(s, "    let xs: Vec<{et}> = b_{k}(v);");
+        s.push_str("    let vec = ser(&xs)?;\n    let slice = { let r: &[_] = &xs[..]; ser(&r)? };\n");
+        if zero {
+            let _ = writeln!(s, "    let iter = Some({});", iter_stream("xs"));
+        } else {
+            s.push_str("    let iter = None;\n");
+        }
+        s.push_str("    let w = SeqW1 { pre: 7u8, a: xs, post: 0x9a9bu16 };\n    let w1_vec = ser(&w)?;\n    let w1_slice = ser(&SeqW1 { pre: 7u8, a: &w.a[..], post: 0x9a9bu16 })?;\n");
+        if zero {
+            s.push_str("    let w1_iter = Some(ser(&SeqW1 { pre: 7u8, a: epserde::impls::iter::SerIter::from(w.a.iter()), post: 0x9a9bu16 })?);\n");
+        } else {
+            s.push_str("    let w1_iter = None;\n");
+        }
+        s.push_str("    let w2 = SeqW2 { a: w.a.clone(), mid: String::from(\"mid\"), b: w.a };\n    let w2_vec = ser(&w2)?;\n");
+        if zero {
+            s.push_str("    let w2_mixed = ser(&SeqW2 { a: &w2.a[..], mid: String::from(\"mid\"), b: epserde::impls::iter::SerIter::from(w2.b.iter()) })?;\n");
+        } else {
+            s.push_str("    let w2_mixed = ser(&SeqW2 { a: &w2.a[..], mid: String::from(\"mid\"), b: &w2.b[..] })?;\n");
+        }
+        s.push_str("    Ok(voracles::seq::SeqStreams { vec, slice, iter, w1_vec, w1_slice, w1_iter, w2_vec, w2_mixed })\n}\n");
+        // faulty sinks with source check
+        let _ = writeln!(s, "pub fn seq_faulty_{j}(v: &Val, which: u8, mut w: &mut dyn std::io::Write) -> (epserde::ser::Result<usize>, voracles::SrcReport) {{");
+        s.push_str("    use epserde::ser::Serialize;\n");
+        let _ = writeln!(s, "    let xs: Vec<{et}> = b_{k}(v);");
+        s.push_str("    let (r, foreign_frees) = match which {\n");
+        s.push_str("        0 => { let r: &[_] = &xs[..]; voracles::alloc::protected(|| r.serialize(&mut w)) }\n");
+        s.push_str("        2 => { let x = SeqW1 { pre: 7u8, a: &xs[..], post: 0x9a9bu16 }; voracles::alloc::protected(|| x.serialize(&mut w)) }\n");
+        if zero {
+            s.push_str("        1 => { let it = epserde::impls::iter::SerIter::from(xs.iter()); voracles::alloc::protected(|| it.serialize(&mut w)) }\n");
+            s.push_str("        _ => { let x = SeqW1 { pre: 7u8, a: epserde::impls::iter::SerIter::from(xs.iter()), post: 0x9a9bu16 }; voracles::alloc::protected(|| x.serialize(&mut w)) }\n");
+        } else {
+            s.push_str("        _ => { let x = SeqW2 { a: &xs[..], mid: String::from(\"mid\"), b: &xs[..] }; voracles::alloc::protected(|| x.serialize(&mut w)) }\n");
+        }
+        let _ = writeln!(s, "    }};\n    let intact = f_{k}(&xs) == *v;\n    drop(xs);\n    (r, voracles::SrcReport {{ intact, foreign_frees }})\n}}");
+        if zero {
+            let _ = writeln!(s, "pub fn seq_liar_{j}(v: &Val, announced: usize, actual: usize, nested: bool, mut w: &mut dyn std::io::Write) -> epserde::ser::Result<usize> {{");
+            s.push_str("    use epserde::ser::Serialize;\n");
+            let _ = writeln!(s, "    let xs: Vec<{et}> = b_{k}(v);");
+            s.push_str("    let liar = voracles::seq::Liar { it: xs[..actual].iter(), announced };\n    let it = epserde::impls::iter::SerIter::new(liar);\n");
+            s.push_str("    if nested { SeqW1 { pre: 7u8, a: it, post: 0x9a9bu16 }.serialize(&mut w) } else { it.serialize(&mut w) }\n}\n");
+        }
+        let _ = writeln!(
+            entries,
+            "        voracles::seq::SeqEntry {{ subject_index: {j}, elem_zero: {zero}, streams: seq_streams_{j}, faulty: seq_faulty_{j}, liar: {} }},",
+            if zero { format!("Some(seq_liar_{j})") } else { "None".to_string() }
+        );
+    }
+    let _ = writeln!(s, "pub fn seqs() -> Vec<voracles::seq::SeqEntry> {{\n    vec![\n{}    ]\n}}\n", entries);
     s
 }
